@@ -49,7 +49,8 @@ def run_one(m, prop):
         fired = [l for l in r.stdout.splitlines() if l.startswith("violated:")]
         rules = sorted({l.split("]")[0].split("[")[1] for l in fired})
         if m["expect"] == "fire":
-            ok = r.returncode == 1
+            # a real "violated:" obligation is required; a merely undecided rule does not count as catching the mutant
+            ok = r.returncode == 1 and len(fired) > 0
         else:
             ok = r.returncode == 0
         return dict(id=m["id"], expect=m["expect"], exit=r.returncode, rules=rules, outcome="ok" if ok else "MISS",
